@@ -145,7 +145,7 @@ cdef double complex cf_csqrt(const double complex z) noexcept nogil:
 
     # Rescale.
     if scale == 1:
-        return cf_build_dblcmplx(result.real * 2.0, result.imag)
+        return cf_build_dblcmplx(result.real * 2.0, result.imag * 2.0)
     else:
         return result
 
